@@ -355,6 +355,34 @@ def real_sample_nums(rng, n):
     return nums[:n]
 
 
+def other_list(rng, cvrs):
+    """a different CVR list for the same contests, as in "preliminary values first, final list later": a prefix of the
+    final list, the list before phantom records were added, or a random non-empty sub-list"""
+    k = rng.randrange(3)
+    if k == 0:
+        l = cvrs[: max(1, len(cvrs) // 2)]
+    elif k == 1:
+        l = [c for c in cvrs if not c.phantom]
+    else:
+        l = rng.sample(cvrs, rng.randint(1, len(cvrs))) if cvrs else []
+    return l if l and len(l) != len(cvrs) else cvrs[: max(1, len(cvrs) - 1)]
+
+
+def preliminary_pass(M, rng, audit, contests, asns, cvrs, s_style):
+    """setters run once on another list before the final list is known: bulk and single-assertion margin setters, and
+    set_tally_pool_means with other pools.  Whatever they leave behind must be replaced by the final calls."""
+    first = other_list(rng, cvrs)
+    if rng.random() < 0.6:
+        call(lambda: M.Assertion.set_all_margins_from_cvrs(audit=audit, contests=contests, cvr_list=first))
+    for _, _, asn in asns:
+        if rng.random() < 0.4:
+            call(lambda: asn.set_margin_from_cvrs(audit, first))
+        if rng.random() < 0.4:
+            labs = list({repr(c.tally_pool): c.tally_pool for c in first if c.pool}.values())
+            call(lambda: asn.assorter.set_tally_pool_means(
+                cvr_list=first, tally_pools=(rng.sample(labs, rng.randint(0, len(labs))) or None), use_style=s_style))
+
+
 def differs(a, b):
     """two implementation floats differ by more than the tolerance (non-finite values differ from everything else)"""
     a, b = float(a), float(b)
@@ -454,6 +482,9 @@ def run_world(rng, spec):
     #      assertion / assorter objects is reassigned by the harness in these worlds.
     preset = wr.random() < 0.4
     if preset:
+        if wr.random() < 0.5:
+            preliminary_pass(M, wr, audit, contests, all_asns, cvrs, s_style)
+            hit("preliminary setters on another CVR list, then the final list")
         set_order = list(all_asns)
         wr.choice([lambda l: None, lambda l: l.reverse(), wr.shuffle])(set_order)
         for _, _, asn_ in set_order:
@@ -506,7 +537,7 @@ def run_world(rng, spec):
                 impl_means = ("raise", rc[1])
                 hit("set_tally_pool_means raised " + rc[1])
         # margin
-        how = wr.choice(["cvrs", "cvrs", "setall", "setall", "twice", "direct"])
+        how = wr.choice(["cvrs", "cvrs", "setall", "setall", "twice", "setall_twice", "setall_twice", "direct"])
         if how == "direct":
             mg = wr.choice([F(1, 4), F(1, 8), F(3, 8), F(1, 64), F(0), F(-1, 8), F(1, 2), F(1)])
             asn.margin = float(mg)
@@ -516,6 +547,12 @@ def run_world(rng, spec):
                 audit.strata["s"].use_style = not s_style
                 call(lambda: asn.set_margin_from_cvrs(audit, cvrs[: max(1, n // 2)]))
                 audit.strata["s"].use_style = s_style
+            if how == "setall_twice":     # margins recomputed for a changed CVR list: first another list, then the final one
+                first = other_list(wr, cvrs)
+                call(lambda: (asn.set_margin_from_cvrs(audit, first) if wr.random() < 0.3 else
+                              M.Assertion.set_all_margins_from_cvrs(audit=audit, contests=contests, cvr_list=first)))
+                hit("margins recomputed: another CVR list first, then the final list")
+                how = "setall"
             if how == "setall":     # Assertion.set_all_margins_from_cvrs: every assertion of every contest, this one included
                 rc = call(lambda: M.Assertion.set_all_margins_from_cvrs(audit=audit, contests=contests, cvr_list=cvrs))
                 hit("margin from set_all_margins_from_cvrs (per-assertion stage)")
@@ -726,6 +763,9 @@ def run_spv(M, ids, wr, spec, contests, audit, cvrs, mvrs, sample, all_asns, tab
     if wr.random() < 0.45:
         npop = n if wr.random() < 0.8 else max(1, n // 2)
         pop = cvrs[:npop]
+        if wr.random() < 0.4:
+            call(lambda: M.Assertion.set_all_margins_from_cvrs(audit=audit, contests=contests, cvr_list=other_list(wr, cvrs)))
+            hit("set_all_margins_from_cvrs twice (another list first)")
         rc = call(lambda: M.Assertion.set_all_margins_from_cvrs(audit=audit, contests=contests, cvr_list=pop))
         if rc[0] == "ok":
             setall = (npop, s_style)
@@ -1033,6 +1073,8 @@ def run_big_world(spec):
     s_cvrs, s_mvrs = [cvrs[i] for i in sample], [mvrs[i] for i in sample]
     all_asns = [(con, a, asn) for con in cons for a, asn in contests[con["id"]].assertions.items()]
     bulk = wr.random() < 0.5
+    if wr.random() < 0.5:
+        preliminary_pass(M, wr, audit, contests, all_asns, cvrs, s_style)
     if bulk:
         call(lambda: M.Assertion.set_all_margins_from_cvrs(audit=audit, contests=contests, cvr_list=cvrs))
     for con, a, asn in all_asns:
@@ -1136,6 +1178,8 @@ def reorder(rng, l):
 def set_phase(W):
     """pool means and margins of ALL assertions of the world, as an audit script does"""
     M, cvrs, s_style = W["M"], W["cvrs"], W["spec"]["s_style"]
+    if W["rng"].random() < 0.5:
+        preliminary_pass(M, W["rng"], W["audit"], W["contests"], W["asns"], cvrs, s_style)
     for _, _, asn in reorder(W["rng"], W["asns"]):
         call(lambda: asn.assorter.set_tally_pool_means(cvr_list=cvrs, tally_pools=None, use_style=s_style))
         if not W["bulk"]:
